@@ -95,6 +95,15 @@ Theorem C14_tie_skip_threading :
 Proof. exact gen_threading_eq. Qed.
 Print Assumptions C14_tie_skip_threading.
 
+(* C14: the filters of the scalar-attribute loop and of the arrays loop of _recursive_load are exactly the model's:
+   scalars are dropped by metadata key / name / declared field only - never by type (the stored scalar is the NORMALISED
+   value: a type test there would not be the save-time instance test) -, arrays by name and exact type *)
+Theorem C14_tie_load_loop_filters :
+  gen_load_attr_loop_filters = model_attr_loop_filters /\ gen_load_array_loop_filters = model_array_loop_filters /\
+  (forall st v, sclass_of v = SAttr -> load_type_skipped st v = false).
+Proof. exact gen_load_loop_filters_eq. Qed.
+Print Assumptions C14_tie_load_loop_filters.
+
 Theorem C14_tie_model_threading :
   (forall sn st m c fields name g,
       encode_value sn st (VObj m c fields) name g = with_group name (encode_fields sn st (encode_value sn st) m c fields) g) /\
